@@ -4,6 +4,7 @@ import os
 import re
 import shutil
 import tempfile
+from concurrent.futures import ThreadPoolExecutor
 
 from . import common as C
 
@@ -42,6 +43,9 @@ META = {
             "repaired to the original or to new content, and every file of the dependency graph touched while broken and "
             "after the repair), 38 `.luaurc` histories (the alias of a bundled require switched, removed, broken, shadowed by "
             "a closer .luaurc, alone or together with the entry, over several passes, in path and in luau require mode), "
+            "16 histories removing a directory whose name is a string prefix of a sibling file and of a sibling directory "
+            "(src/sub vs src/sub.lua and src/sub_extra/x.lua; src/sub/deep vs src/sub/deep.lua and src/sub/deep_x/y.lua - "
+            "these siblings are in the project of every stream) followed by edits of the siblings, "
             "then seeded random histories up to length 12 "
             "(quick) or 40 (thorough); a history is non-trivial when some process after the first one reprocesses or "
             "deletes something; distinct by event sequence; for the oracle stream the unit is a process point and "
@@ -432,12 +436,15 @@ def run(ctx):
         ("exhaustive, full alphabet", ["enum", "--len", "2", "--alphabet", "full"]),
         ("break / repair / touch every bundled file", ["breakfix"]),
         (".luaurc aliases changing between passes, path and luau require mode", ["luaurc"]),
+        ("directory removal next to siblings with the same name prefix", ["siblings"]),
         ("random", ["random", "--seed", str(ctx.seed), "--n", "200" if quick else "1500",
                     "--len", "12" if quick else "40"]),
     ]
     records = []
-    for name, args in streams:
-        out = C.harness("dl-c10", args, timeout=1500)
+    # the streams are independent harness processes: run them side by side
+    with ThreadPoolExecutor(max_workers=len(streams)) as pool:
+        outputs = list(pool.map(lambda item: C.harness("dl-c10", item[1], timeout=1500), streams))
+    for (name, args), out in zip(streams, outputs):
         _, recs = read_harness(out)
         for r in recs:
             r["stream"] = name
